@@ -81,6 +81,9 @@ def _run_variant(args):
         def _parts(key):
             p_ = key.split('|')
             return (p_[0], p_[1].split('.')[0], '|'.join(p_[2:])) if len(p_) >= 3 and '.' in p_[1] else None
+        for f in list(new):
+            if _parts(f[1]) and any(g[1] in set(b[1] for b in base) and _parts(g[1]) == _parts(f[1]) and g[2].split(' ')[0] == f[2].split(' ')[0] for g in got):
+                new.remove(f)          # the same source line, seen once more inside / outside an expanded helper
         got_keys = set(f[1] for f in got)
         gone = [b for b in base if b[1] not in got_keys and _parts(b[1])]
         for b in gone:
